@@ -32,7 +32,7 @@ RULE = (
     "a job with no operations left (also after the episode is complete), "
     "(vii) an ineligible machine (in range, beyond the range, negative other than -1), (viii) (job, -1) for a multi-machine "
     "operation; and, through MultiJobShopGraphEnv, steps naming a finished "
-    "job, a machine or a job that does not exist in the current instance. Observers: all chosen feature observers + composite, history, "
+    "job, a machine or a job that does not exist in the current instance; optionally other public calls failed the documented way earlier in the same process (deadlocking job sequences, a scheduled operation on an ineligible machine). Observers: all chosen feature observers + composite, history, "
     "unscheduled, both rewards, residual graph updater. Oracle: each injected "
     "request raises; deep snapshot (tracking vectors, schedule, all queries, "
     "every observer's public state, env observation) before == after; and a "
@@ -65,6 +65,7 @@ def strategy(tier):
             "builder": gen.pick(sorted(obs.BUILDERS)),
             "features": obs.feature_configs(min_size=1, max_size=4),
             "events": gen.sized_lists(gen.weighted((3, d), (2, x)), 30),
+            "prelude": gen.pick([False, True, False]),
         }
     )
 
@@ -280,10 +281,33 @@ def multi_env_part(case, ctx):
             step_no += 1
 
 
+def failed_calls_prelude(ctx):
+    """Earlier in the same process other public calls failed the documented
+    way (job sequences that deadlock / name a job too often, a schedule with
+    an operation on a machine it is not eligible for)."""
+    from job_shop_lib import JobShopInstance, Operation, Schedule, ScheduledOperation
+
+    other = JobShopInstance([[Operation(0, 2), Operation(1, 3)], [Operation(1, 1), Operation(0, 4)]], name="prelude")
+    raised = 0
+    for seqs in ([[1, 0], [0, 1]], [[0, 0, 1], [1, 0]]):
+        try:
+            Schedule.from_job_sequences(other, [list(s) for s in seqs])
+        except Exception:  # pylint: disable=broad-except
+            raised += 1
+    try:
+        ScheduledOperation(other.jobs[0][0], 0, 1)
+    except Exception:  # pylint: disable=broad-except
+        raised += 1
+    ctx.count("prelude_calls_raised", raised)  # (a stimulus, not asserted here)
+    ctx.label("failed_calls_prelude")
+
+
 def check_case(case, ctx):
     inst, events = case["inst"], case["events"]
     if len(events) % 4 == 0:
         multi_env_part(case, ctx)
+    if case.get("prelude"):
+        failed_calls_prelude(ctx)
     w = World(case)
     twin = World(case)
     model = ref(inst)
